@@ -28,6 +28,8 @@ template <class T> struct is_B : std::is_same<T, B> {};
 template <class T> struct is_D : std::is_same<T, D> {};
 template <class T> struct ident { using type = T; };
 struct no_type_member {};
+struct plain_true { static constexpr bool value = true; };      // conditions that are not std::integral_constant<bool, ...>
+struct plain_false { static constexpr bool value = false; };
 template <class T> struct is_cplx : std::false_type {}; template <class T> struct is_cplx<std::complex<T>> : std::true_type {};
 template <bool V, int I> struct bt : std::integral_constant<bool, V> {};
 template <int I> struct boom { static_assert(I < 0, "boom<I> must never be instantiated"); static constexpr bool value = true; };
@@ -112,6 +114,17 @@ def gen_lists(w, tier):
         w.same("decltype(static_if<%s>(TF{}, FF{}))" % cs, "int" if c else "double", R, "static_if", "static_if<cond>", "cond=" + cs)
         w.same("decltype(static_if(std::integral_constant<bool, %s>{}, TF{}, FF{}))" % cs, "int" if c else "double", R,
                "static_if", "static_if(tag)", "cond=" + cs)
+    # the condition of if_ / eval_if is whatever has a ::value convertible to bool, not only the std bool constants
+    for cnd, c in (("plain_true", True), ("plain_false", False), ("std::integral_constant<int, 1>", True), ("std::integral_constant<int, 0>", False),
+                   ("std::is_same<A, A>", True), ("std::is_same<A, B>", False)):
+        w.same("if_t<%s, X, Y>" % cnd, "X" if c else "Y", R, "if_", "if_t reads the condition's ::value", cnd)
+        w.same("eval_if_t<%s, ident<X>, ident<Y>>" % cnd, "X" if c else "Y", R, "eval_if", "eval_if_t reads the condition's ::value", cnd)
+    # count / contains / index_of compare element types exactly: cv-qualified elements are different types
+    CV = "vector<int, const int, volatile int, const int, A, const A>"
+    for v, nv in (("int", 1), ("const int", 2), ("volatile int", 1), ("const volatile int", 0), ("A", 1), ("const A", 1)):
+        w.must_hold("count<%s, %s>::value == %d" % (CV, v, nv), R, "count", "cv-qualified elements are distinct types", v)
+        w.must_hold("contains<%s, %s>::value == %s" % (CV, v, "true" if nv else "false"), R, "contains", "cv-qualified elements are distinct types", v)
+    w.must_hold("index_of<%s, const int>::value == 1 && index_of<%s, const A>::value == 5" % (CV, CV), R, "index_of", "cv-qualified elements are distinct types", "const int, const A")
     # the `self` a static_if branch receives is the identity: what the branch passes through it comes back as the same object, in the same value category
     for arg, want in (("std::declval<int>()", "int&&"), ("std::declval<int&>()", "int&"), ("std::declval<const int&>()", "const int&"), ("std::declval<const X>()", "const X&&"),
                       ("std::declval<X&>()", "X&")):
